@@ -12,10 +12,11 @@ import loadrun as L
 import nodes as N
 
 PROPERTY = 'C06'
-LEAN_MODULES = ['YatimlModel.Props.C06']
+LEAN_MODULES = ['YatimlModel.Props.C06', 'YatimlModel.Props.C06Tree']
 THEOREMS = ['YatimlModel.C06.' + t for t in [
     'C06_collection_tags_default', 'C06_scalar_tags_core', 'C06_attribute_order', 'C06_enum_by_name',
-    'C06_represented_ints_resolve', 'C06_represented_floats_resolve', 'C06_represented_bools_nulls_resolve']]
+    'C06_represented_ints_resolve', 'C06_represented_floats_resolve', 'C06_represented_bools_nulls_resolve',
+    'C06_represented_tree_core']]
 RULE = ('generated class models (typed signatures, inheritance, _yatiml_extra, enums, string-likes, '
         'sweeten functions from the hook DSL) x generated values of their types (adversarial strings, '
         'non-finite floats, dates, paths, ordered dicts); the represented node tree of the real Dumper is '
